@@ -212,3 +212,26 @@ bounded_only('C19', 'bounded.c19',
     ['all public query / conversion methods listed in bounded/c19.py *_OPS'],
     'case = (class, object, second operand, history); non-trivial = history with at least two different calls; evaluations = calls compared',
     {'quick': 'all ordered pairs of calls per class (2455 histories) + 2080 random histories', 'thorough': '4 objects per pair + 20800 random histories'})
+
+
+# ------------------------------------------------------------------ CFG functions under contract (contracts/cfg.py)
+CFGM = 'contracts.cfg'
+def mixed(pid, keys, lean, proved_text, technique, extra_trusted=()):
+    sp = PROPS[pid]
+    sp['pyvc'] = [(CFGM, k) for k in keys]; sp['lean'] = lean; sp['level'] = 'other'
+    sp['technique'] = technique
+    sp['level_text'] = proved_text + ' The rest of the chain is only covered by the bounded stand-in: ' + sp['level_text'].replace('Bounded stand-in only: ', '')
+    sp['explanation'] = 'mixed: functions listed under functions_proved are verified deductively from their current source (all grammars, all iteration orders); everything under functions_bounded_only is bounded (see level_text)'
+    sp['trusted_base'] = list(sp.get('trusted_base', [])) + list(extra_trusted)
+CFG_TRUST = ['CFG._productions is taken to be a set (what every constructor call in the library passes); Production equality is equality of head and body',
+             'lemma InBody(Rev s) = InBody s (bridge/cfgrev.lean) and closure-induction schema instances for CReach / UReach',
+             'language preservation of the clean-up steps from their proved structure: textbook theorems (Hopcroft-Motwani-Ullman 7.2, 7.7, 7.13), assumed, backed by the bounded language comparison']
+mixed('C09', ['CFG.get_reachable_symbols', 'CFG.get_unit_pairs', 'CFG.eliminate_unit_productions', 'CFG.remove_useless_symbols', 'fn.get_productions_d'], [],
+      'Deductive for get_reachable_symbols (= closure of "occurs in a body of"), get_unit_pairs (= unit-derivability from every variable), eliminate_unit_productions (exactly the non-unit bodies of every unit-reachable variable, and no unit production in the result), remove_useless_symbols (modular: given the assumed contract of get_generating_symbols the result keeps exactly the productions over generating symbols whose head is reachable, and only generating and reachable symbols) and the helper get_productions_d.',
+      'contract-based deductive verification (pyvc + z3) of the structural CFG clean-up functions; bounded run-time contract checking for nullable/generating counters, epsilon removal, terminal lifting, binarisation and for the language statements', CFG_TRUST + ['contract of CFG.get_generating_symbols is ASSUMED at the call site in remove_useless_symbols (counter-based worklist: bounded only)'])
+mixed('C10', ['CFG.reverse'], ['bridge/cfgrev.lean'],
+      'Deductive for CFG.reverse: the result has exactly the productions with reversed bodies, same symbols and start symbol (all grammars); Mathlib ContextFreeGrammar.language_reverse gives the mirror language.',
+      'contract-based deductive verification (pyvc + z3, Mathlib language_reverse) for reverse; bounded run-time contract checking for substitute and its four templates', CFG_TRUST[:2])
+mixed('C12', ['CFG.is_empty', 'CFG.get_reachable_symbols'], [],
+      'Deductive for get_reachable_symbols (exactly the symbols occurring in a sentential form derivable from the start symbol, by closure induction) and is_empty (modular: start symbol not in the assumed result of get_generating_symbols).',
+      'contract-based deductive verification (pyvc + z3) for reachability and the emptiness wrapper; bounded run-time contract checking for generating/nullable sets, finiteness (networkx) and word enumeration', CFG_TRUST[:2] + ['contract of CFG.get_generating_symbols is ASSUMED at the call site in is_empty'])
